@@ -175,7 +175,9 @@ class ART1(BaseART):
             Updated cluster weight.
 
         """
-        w_td_new = i
+        # in double precision, like every later update (float32 rows would otherwise
+        # leave new categories at another precision than updated ones)
+        w_td_new = np.asarray(i, dtype=float)
         w_bu_new = (params["L"] / (params["L"] - 1 + l1norm(w_td_new))) * w_td_new
         return np.concatenate([w_bu_new, w_td_new])
 
